@@ -240,7 +240,27 @@ fn h_engine(ctx: &Ctx) {
         t.1 += st.transitions;
         t.2 += st.outcomes.len();
     });
+    // threshold histories: a small complete BFS over the two thresholds (three values each), r, g, x, build and
+    // clone on inputs with nested repetitions -- every order in which thresholds are raised and lowered between
+    // builds on one thread
+    let thr_ops: Vec<Op> = vec![Op::Flag(R), Op::Flag(G), Op::Flag(X), Op::MinRep(1), Op::MinRep(2), Op::MinRep(3), Op::MinLen(1), Op::MinLen(2), Op::MinLen(3), Op::Build, Op::CloneOp];
+    let thr_inputs: Vec<Vec<String>> = vec![s(&["aabaabaab"]), s(&["xxyzxxyz", "q"]), s(&["ababab ababab", "abab"]), s(&["aaaa", "aaaaaa", "b"])];
+    par_for(thr_inputs.len(), |i| {
+        let mut st = HStats { states: 0, transitions: 0, outcomes: HashSet::new() };
+        bfs(ctx, &thr_inputs[i], &thr_ops, &mut st, cap);
+        ctx.run.states.fetch_add(st.states, Ordering::Relaxed);
+        ctx.run.transitions.fetch_add(st.transitions, Ordering::Relaxed);
+        ctx.run.traces.fetch_add(st.states * 3, Ordering::Relaxed);
+        for k in 0..st.states {
+            ctx.run.mark_nontrivial(hash_case(&thr_inputs[i], &Cfg::with(k as u32, 77, 7)));
+        }
+        let mut t = tot.lock().unwrap();
+        t.0 += st.states;
+        t.1 += st.transitions;
+        t.2 += st.outcomes.len();
+    });
     let t = tot.lock().unwrap();
+    ctx.run.space(json!({"engine": "H (threshold histories)", "initial_lists": thr_inputs.len(), "operations": thr_ops.iter().map(op_name).collect::<Vec<_>>()}));
     ctx.run.space(json!({"engine": "H (builder call histories, BFS, exact-state dedup on (owned test-case vector, config))", "initial_lists": initials.len(), "operations": ops.iter().map(op_name).collect::<Vec<_>>(), "states": t.0, "transitions": t.1, "distinct_reference_outputs_summed_over_initial_lists": t.2, "observations_per_state": "build, build-twice, clone-build vs fresh canonical build"}));
 }
 
@@ -249,7 +269,7 @@ fn h_engine(ctx: &Ctx) {
 fn orders(ctx: &Ctx) {
     let thorough = ctx.run.is_thorough();
     let mut unis = vec![Universe::new("U_ab3{a,b}", &["a", "b"], 3, if thorough { 4 } else { 3 }, true)];
-    unis.push(Universe::new("U_case{a,A,b}", &["a", "A", "b"], 2, 3, true));
+    unis.push(Universe::new("U_case{a,A,b,B}", &["a", "A", "b", "B"], 2, 3, true));
     if thorough {
         unis.push(Universe::new("U_adv(A_case)", A_CASE, 1, 4, true));
     }
@@ -269,6 +289,22 @@ fn orders(ctx: &Ctx) {
                         let mut d = t.clone();
                         d.insert(pos, t[j].clone());
                         variants.push(d);
+                    }
+                }
+                // a second build() on the same builder (its list was normalised in place by the first)
+                {
+                    ctx.run.eval();
+                    let c = *cfg;
+                    let tt = t.clone();
+                    let twice = std::panic::catch_unwind(move || {
+                        let mut b = c.builder(&tt);
+                        let first = b.build();
+                        (first, b.build())
+                    });
+                    if let Ok((first, second)) = twice {
+                        if first != second || Ok(first.clone()) != expect {
+                            ctx.run.violation(viol("C10", "determinism", format!("second-build-differs flags={}", cfg.flag_names().join(",")), &t, cfg, &second, json!({"first_build": first, "expected": expect.clone().unwrap_or_default()})));
+                        }
                     }
                 }
                 for v in &variants {
